@@ -227,6 +227,8 @@ def run_case(idx, rng, tier, ctx):
         elif d['status'] == 'new_build_fail':
             res['violations'].append({'key': classify(tmode, hazard, 'compile', d['detail']),
                                       'msg': d['detail'][:700], 'witness': witness})
+        elif d['status'] == 'differ' and 'TIMEOUT' in d['detail']:
+            res['inconclusive'] = 'transformed program timed out (wall-clock effects are never a verdict)'
         elif d['status'] == 'differ':
             witness['diff'] = {k: d.get(k) for k in ('detail', 'stdin', 'orig_out', 'new_out', 'new_err')}
             res['violations'].append({'key': classify(tmode, hazard, 'differ', d['detail'] + ' ' + d.get('new_err', '')),
